@@ -50,7 +50,7 @@ def u8i (x : Int) : Nat := (x % 256).toNat
 
 def parsePlatform (tag : List String) : PlatRes :=
   match tag with
-  | [] => .unmodelled
+  | [] => .inputError   -- `if(tag.empty()) error("empty platform command")` (db86e99; was `tag[0]` of an empty vector)
   | w :: args =>
     let k := lower w
     let a (i : Nat) : String := (args[i]?).getD ""
